@@ -527,6 +527,32 @@ fn run_model_input(ctx: &mut Ctx, r: &mut Rng) {
             (tracked_out, grad_of(&x), is_tracked(&x))
         })
     };
+    // the cost closures are operations like any other: plain output and target give a plain cost array, a tracked one
+    // of either gives a tracked cost
+    {
+        let plain = guard(|| {
+            let costf: CostFunction = if spec.ce { cost::cross_entropy() } else { cost::mse() };
+            let o = arr_t(&out);
+            let t = arr_t(&target);
+            let c0 = is_tracked(&costf(&o, &t));
+            let c1 = is_tracked(&costf(&o.clone().tracked(), &t));
+            let c2 = is_tracked(&costf(&o, &t.clone().tracked()));
+            (c0, c1, c2)
+        });
+        ctx.count("cost_tracking_cells_checked", 3);
+        match plain {
+            Ok((c0, c1, c2)) => {
+                if c0 || !c1 || !c2 {
+                    ctx.violation("C09|model-input|cost-tracking", format!("{}: cost of (plain, plain) tracked={}, of (tracked output, plain) tracked={}, of (plain, tracked target) tracked={}", desc, c0, c1, c2));
+                    return;
+                }
+            }
+            Err(m) => {
+                ctx.violation(&format!("C09|model-input|cost-panic:{}", panic_class(&m)), format!("{}: cost closure panicked: {}", desc, m));
+                return;
+            }
+        }
+    }
     let (a, b) = (run(false), run(true));
     match (a, b) {
         (Ok((ta, ga, fa)), Ok((tb, gb, fb))) => {
